@@ -234,6 +234,7 @@ SAN = ["-fsanitize=address,undefined", "-fno-sanitize-recover=all", "-fno-omit-f
 # name -> build options; every check and ./setup use the same table, so setup warms exactly the caches the checks need
 HARNESSES = {
     "arith": dict(opt="-O1"),
+    "literal": dict(opt="-O1"),
 }
 
 
@@ -301,6 +302,30 @@ def run_harness(exe, args, lines, timeout=600, env=None):
         return -999, (ex.stdout or b"").decode("utf-8", "replace").split("\n")[:-1], "TIMEOUT"
 
 
+def run_harness_resilient(exe, args, lines, timeout=900, env=None, max_restarts=60):
+    """Like run_harness, but when the process dies (signal, abort, sanitizer) on a line, record
+    'crash:<rc>[:<first stderr line>]' for that line and continue with the next one."""
+    out, start, restarts = [], 0, 0
+    while start < len(lines):
+        rc, o, err = run_harness(exe, args, lines[start:], timeout=timeout, env=env)
+        out += o
+        start = len(out)
+        if start >= len(lines):
+            break
+        why = ""
+        for l in err.splitlines():
+            if "ERROR" in l or "runtime error" in l or "terminate" in l or "TIMEOUT" in l:
+                why = ":" + l.strip()[:160]
+                break
+        out.append("crash:rc=%s%s" % (rc, why))
+        start += 1
+        restarts += 1
+        if restarts > max_restarts:
+            out += ["crash:skipped"] * (len(lines) - len(out))
+            break
+    return out[:len(lines)], restarts
+
+
 # ---------------------------------------------------------------- known findings
 def load_known():
     p = os.path.join(VERIF, "known_findings.json")
@@ -324,6 +349,9 @@ class Ctx:
         self.notes = []
         self.timers = {}
         self.known = [k for k in load_known()["findings"] if k.get("property") == prop]
+        for f in os.listdir(REPLAYS):
+            if f.startswith("%s-%s-" % (prop, tier)):
+                os.remove(os.path.join(REPLAYS, f))
 
     # -- obligations
     def oblige(self, name, ok, detail=""):
@@ -527,3 +555,52 @@ def conclude(ctx, failing_inputs_found):
         ctx.violation("obligation", {"failing_obligations": [{"name": n, "detail": d} for n, d in broken],
                                      "note": "no concrete failing input was found by the search; the property is no longer shown to hold"},
                       no_input=True)
+
+
+def compare_streams(ctx, mode, cases, mout, iout, canon_impl=lambda x, line: x, canon_model=lambda x, line: x,
+                    skip=lambda spec, model, line: False, nontrivial=lambda impl, line: True,
+                    known=lambda line, spec, impl, model, tags: None, max_report=5, bucket=lambda line: line.split()[0]):
+    """Generic differential verdict. Per case: impl vs spec decides a violation (unless `known` returns a
+    known-finding tag that is listed); impl vs model measures the correspondence.  -> number of violations found"""
+    found = model_diffs = skipped = known_hits = 0
+    nt = set()
+    if len(mout) != len(cases) or len(iout) != len(cases):
+        ctx.oblige("streams complete (%s)" % mode, False, "model %d impl %d cases %d" % (len(mout), len(iout), len(cases)))
+    for line, m, i in zip(cases, mout, iout):
+        d = split_model_line(m)
+        ctx.hist("kinds", bucket(line))
+        if "spec" not in d:
+            ctx.oblige("driver accepts case (%s)" % mode, False, "%s -> %s" % (line, m))
+            continue
+        spec_raw, model_raw, tags = d["spec"], d["model"], d.get("tags", "")
+        if skip(spec_raw, model_raw, line):
+            skipped += 1
+            continue
+        spec, model, impl = canon_model(spec_raw, line), canon_model(model_raw, line), canon_impl(i, line)
+        ctx.hist("outcomes", impl.split()[0] if impl else "empty")
+        if nontrivial(impl, line):
+            nt.add(line)
+        if impl != spec:
+            tag = known(line, spec, impl, model, tags)
+            if tag and ctx.known_finding(tag, "%s: %s" % (mode, line)):
+                known_hits += 1
+                if impl != model:
+                    model_diffs += 1
+                continue
+            found += 1
+            if found <= max_report:
+                ctx.violation("input", {"mode": mode, "case": line, "expected_spec": spec_raw, "observed": i, "model_predicts": model_raw,
+                                        "how_to_replay": "echo '%s' | build/harness/%s/<bin>   and   | lean/.lake/build/bin/chaimodel %s" % (line, mode, mode)})
+        elif impl != model:
+            model_diffs += 1
+            if model_diffs <= 3:
+                ctx.notes.append("model/impl differ (impl agrees with spec): %s model=%s impl=%s" % (line, model_raw, i))
+    ctx.count("evaluations", len(cases))
+    ctx.cov["distinct_nontrivial"] = ctx.cov.get("distinct_nontrivial", 0) + len(nt)
+    ctx.count("skipped_outside_property", skipped)
+    ctx.count("spec_disagreements", found)
+    ctx.count("known_finding_cases", known_hits)
+    ctx.count("model_only_disagreements", model_diffs)
+    ctx.oblige("correspondence model≡impl (%s)" % mode, model_diffs == 0,
+               "" if model_diffs == 0 else "%d cases where the model differs from the implementation" % model_diffs)
+    return found
